@@ -376,6 +376,13 @@ def rule_error_attribution(ctx):
                                  for y in H.walk(a["body"]))
                 if vs and calls_wrap:
                     rewrapped |= vs
+                    g = a.get("guard")
+                    own_path = g is not None and any(H.kind(y) == "Binary" and y.get("op") == "Eq" for y in H.walk(g)) and \
+                        any(b.get("name") == "path" for b in H.pat_bindings(a["pat"]))
+                    ctx.check(own_path, rule, "load_import:read-of-the-requested-path", "load_import rewraps EVERY Read failure of the provider's "
+                              "load as its own import error: the provider's companion `.zyi` is read by the same load, and an unreadable "
+                              "companion (a directory `lib.zyi`) is reported as `cannot resolve import lib.zy`, a file that is fine; the arm "
+                              "must compare the error's path with the requested one", [facts.bodies()[fn]["loc"][0], a.get("ln")])
                 if not vs and H.kind(H.peel(a["body"])) == "Path":
                     passthrough = True
             ctx.check(rewrapped == {"Read"} and passthrough, rule, "load_import:only-read-rewrapped", "load_import rewraps %s of the provider's load as "
